@@ -97,6 +97,14 @@ def rule_core(ctx):
                 res.ok()
             else:
                 res.violate("%s : seed-skip-condition" % key, "a seed is skipped under `%s`, which is neither `already labelled` nor exactly `neighbour count < min_points`: a core point can stay unlabelled" % g[1][:100], fn_loc(fn, x.node["ln"]))
+        # the scan over the samples is never cut short: whether a later sample is a core point depends on its own
+        # neighbourhood (assigned or not), never on how many samples are still unlabelled
+        for x in tr.events:
+            if x.kind in ("break", "ret") and len(x.loops) == 1 and seed_q and x.loops[0][1] is seed_q[0].loops[0][1]:
+                g = x.guards[-1][1][:80] if x.guards else "(unconditionally)"
+                inst = "%s : scan left when %s" % (key, g)
+                res.instance(inst)
+                res.violate("%s : scan-cut-short" % key, "the scan over the samples is left (`%s`) when %s: the samples after that point are never examined, although a core point among them must still be labelled" % (x.kind, g), fn_loc(fn, x.node["ln"]))
         # cluster id: exactly one increment, in the seed loop, after the expansion loop
         incs = [e for e in tr.events if e.kind == "assignop" and "cluster_id" in e.lhs]
         res.instance("%s : cluster id increments" % key)
@@ -541,4 +549,4 @@ def rule_tie(ctx):
 
 
 def rules(tier):
-    return [rule_core, rule_self, rule_index, rule_order, rule_once, rule_memorder, rule_tie, rule_start, c07.rule_edge]
+    return [rule_core, rule_self, rule_index, rule_order, rule_once, rule_memorder, rule_tie, rule_start, c07.rule_edge, c07.rule_unit]
